@@ -272,6 +272,11 @@ def check_numpy(case):
                 conv = type_casts.NumpyFloatToFixConverter(signed, n_bits,
                                                            n_frac)
                 out = conv(arr)
+                # a converter object is re-usable
+                again = conv(arr)
+    require(np.array_equal(np.asarray(out), np.asarray(again)),
+            "a converter gives a different result when called a second time",
+            det)
     require(np.array_equal(before, arr), "NumpyFloatToFixConverter modified "
             "its input", det)
     require(isinstance(out, np.ndarray) and
